@@ -176,11 +176,13 @@ def decided(ex, a, b):
     return None
 
 
-def expected(ex, sh, tag):
+def expected(ex, sh, tag, decide=None):
     """-> list of ('ok', dict) | ('err', set of unknown placeholder names) in table and row order, or None when the outline has no Examples"""
     if not sh.tables:
         return None
     out = []
+    if decide is None:
+        decide = lambda a, b: decided(ex, a, b)  # noqa
 
     def subst(parts, ttag, j, r, unknown):
         res = []
@@ -192,7 +194,7 @@ def expected(ex, sh, tag):
             nc = sh.tables[j][0]
             col = None
             for c in range(nc):
-                d = decided(ex, ph, '%s.ex%d.col%d' % (tag, j, c))
+                d = decide(ph, '%s.ex%d.col%d' % (tag, j, c))
                 if d:
                     col = c
                     break
@@ -269,6 +271,387 @@ def layout(sh, tag, sc_line, lines):
     return cs, prev_end
 
 
+# ---------------------------------------------------------------- native replay
+LIT_TEXTS = ['plain', 'x>$1', 'a b', '100%', 'q$0>', 'end.']
+VAL_TEXTS = ['v', '<w>', '$1', 'a<b', '>z<', '7']
+
+
+def truth_table(ex, sh, tag):
+    """decided placeholder/column equalities of this path: {(k, j, c): True|False|None}"""
+    t = {}
+    for j, tb in enumerate(sh.tables):
+        if tb is None:
+            continue
+        for c in range(tb[0]):
+            for k in range(sh.nph):
+                t[(k, j, c)] = decided(ex, 'ph%d' % k, '%s.ex%d.col%d' % (tag, j, c))
+    return t
+
+
+class Realizer:
+    """concrete .feature text for outlines whose placeholder/column equalities are given (truth tables per scenario tag)"""
+
+    def __init__(self, scen, truths):
+        # scen: list of (tag, shape); truths: {tag: {(k, j, c): bool|None}}
+        self.scen, self.truths = scen, truths
+        nodes = set()
+        for tag, sh in scen:
+            nodes |= {'ph%d' % k for k in range(sh.nph)}
+            nodes |= {'%s.c%d.%d' % (tag, j, c) for j, tb in enumerate(sh.tables) if tb for c in range(tb[0])}
+        parent = {n: n for n in nodes}
+
+        def find(n):
+            while parent[n] != n:
+                n = parent[n]
+            return n
+        self.ok = True
+        for tag, sh in scen:
+            for (k, j, c), v in truths[tag].items():
+                if v:
+                    parent[find('ph%d' % k)] = find('%s.c%d.%d' % (tag, j, c))
+        for tag, sh in scen:
+            for (k, j, c), v in truths[tag].items():
+                if v is False and find('ph%d' % k) == find('%s.c%d.%d' % (tag, j, c)):
+                    self.ok = False
+            for j, tb in enumerate(sh.tables):
+                if tb and len(set(find('%s.c%d.%d' % (tag, j, c)) for c in range(tb[0]))) != tb[0]:
+                    self.ok = False
+        cls = {}
+        self.name = {n: 'n%d' % cls.setdefault(find(n), len(cls)) for n in sorted(nodes)}
+        self.lit, self.val = {}, {}
+
+    def lit_text(self, i):
+        return self.lit.setdefault(i, '%s%d' % (LIT_TEXTS[len(self.lit) % len(LIT_TEXTS)], len(self.lit)))
+
+    def tmpl_text(self, parts, ttag):
+        out = ''
+        for i, p in enumerate(parts):
+            out += self.lit_text('%s.%d' % (ttag, i)) if p == 'L' else '<%s>' % self.name['ph%s' % p[1:]]
+        return out
+
+    def block(self, sh, tag, ind):
+        L = ['%s@%s.tag0 @%s.tag1' % (ind, tag, tag), '%sScenario Outline: %s' % (ind, self.tmpl_text(sh.name, tag + '.name'))]
+        for i, s in enumerate(sh.steps):
+            L.append('%s  Given %s' % (ind, self.tmpl_text(s['value'], '%s.s%d.v' % (tag, i))))
+            if s['doc'] is not None:
+                L += ['%s    """' % ind, '%s    %s' % (ind, self.tmpl_text(s['doc'], '%s.s%d.d' % (tag, i))), '%s    """' % ind]
+            if s['table'] is not None:
+                for r, row in enumerate(s['table']):
+                    L.append('%s    | %s |' % (ind, ' | '.join(self.tmpl_text(c, '%s.s%d.t%d.%d' % (tag, i, r, k)) for k, c in enumerate(row))))
+        for j, tb in enumerate(sh.tables):
+            L += ['%s  @%s.ex%d.tag' % (ind, tag, j), '%s  Examples:' % ind]
+            if tb is None:
+                continue
+            nc, nr = tb
+            L.append('%s    | %s |' % (ind, ' | '.join(self.name['%s.c%d.%d' % (tag, j, c)] for c in range(nc))))
+            for r in range(nr):
+                cells = []
+                for c in range(nc):
+                    v = '%s%d' % (VAL_TEXTS[len(self.val) % len(VAL_TEXTS)], len(self.val))
+                    self.val['%s.ex%d.r%d.c%d' % (tag, j, r, c)] = v
+                    cells.append(v)
+                L.append('%s    | %s |' % (ind, ' | '.join(cells)))
+        return L
+
+    def render(self, parts):
+        out = ''
+        for p in parts:
+            if p[0] == 'lit':
+                out += self.lit_text(p[1])
+            elif p[0] == 'ph':
+                out += '<%s>' % self.name[p[1]]
+            elif p[1] == 'lit:""':
+                out += ''
+            else:
+                out += self.val[p[1]]
+        return out
+
+
+def realize(sh, tag, truth):
+    """-> (feature text, render, names) for a concrete .feature file realising one outline and its equalities, or None when
+    the equalities are not realisable by names (the Booleans are independent in the model)."""
+    R = Realizer([(tag, sh)], {tag: truth})
+    if not R.ok:
+        return None
+    text = '\n'.join(['Feature: f'] + R.block(sh, tag, '  ')) + '\n'
+    names = dict(R.name)
+    for k, v in list(names.items()):
+        if k.startswith(tag + '.c'):
+            names[k[len(tag) + 1:]] = v
+    return text, R.render, names
+
+
+def native_expand(chk, text, tagname):
+    """-> ('err', name) | ('ok', [scenario dicts with rendered strings]) from the real expand_examples, or None"""
+    import os
+    from checks import replay
+    d = os.path.join(common.EVID, 'replay')
+    os.makedirs(d, exist_ok=True)
+    path = os.path.join(d, 'C16-%s.script' % tagname)
+    script = 'mode outline\n' + ''.join('| %s\n' % ln if ln else '|\n' for ln in text.split('\n')[:-1])
+    r, out = replay.run_script(script, path, timeout=60)
+    chk.replays += 1
+    if r is None:
+        return None, path, out
+    unesc = lambda x: x.replace('\\n', '\n').replace('\\\\', '\\')  # noqa
+    res, cur = [], None
+    for ln in out.splitlines():
+        if ln.startswith('ERROR name='):
+            return ('err', ln[len('ERROR name='):]), path, out
+        if ln.startswith('SCENARIO '):
+            m = re.match(r'SCENARIO where=(\w+) name=(.*) line=(\d+) tags=(.*)$', ln)
+            cur = {'where': m.group(1), 'name': unesc(m.group(2)), 'line': int(m.group(3)), 'tags': [t for t in m.group(4).split(',') if t], 'steps': []}
+            res.append(cur)
+        elif ln.startswith('STEP value='):
+            cur['steps'].append({'value': unesc(ln[len('STEP value='):]), 'doc': None, 'table': None})
+        elif ln.startswith('DOC '):
+            cur['steps'][-1]['doc'] = unesc(ln[4:]).strip('\n')     # gherkin keeps the line breaks around the doc string's body
+        elif ln.startswith('CELL '):
+            m = re.match(r'CELL (\d+) (\d+) (.*)$', ln)
+            tb = cur['steps'][-1]['table'] = cur['steps'][-1]['table'] or []
+            while len(tb) <= int(m.group(1)):
+                tb.append([])
+            tb[int(m.group(1))].append(unesc(m.group(3)))
+    return ('ok', res), path, out
+
+
+def native_judge(sh, tag, truth, got, render, name):
+    """the same comparison as `compare`, on the concrete strings the real code produced; -> dict obligation -> error | None"""
+    class FakeEx:
+        pass
+
+    def dec(a, b, truth=truth):
+        k = int(a[2:])
+        m = re.match(r'.*\.ex(\d+)\.col(\d+)$', b)
+        return truth.get((k, int(m.group(1)), int(m.group(2))))
+    exp = expected(None, sh, tag, decide=dec)
+    errs = {}
+    if exp is None:
+        errs['scenario-without-examples-unchanged'] = None if got[0] == 'ok' and len(got[1]) == 1 else 'a scenario without Examples came back as %d scenarios' % (len(got[1]) if got[0] == 'ok' else -1)
+        return errs
+    want = []
+    for x in exp:
+        if x[0] == 'err':
+            want.append(('err', set(name[p] for p in x[1])))
+        else:
+            d = x[1]
+            want.append(('ok', {'name': render(d['name']), 'tags': ['@' + t if False else t for t in d['tags']],
+                                'steps': [{'value': render(s['value']), 'doc': render(s['doc']) if s['doc'] is not None else None,
+                                           'table': [[render(c) for c in row] for row in s['table']] if s['table'] is not None else None} for s in d['steps']]}))
+    unknown = [w for w in want if w[0] == 'err']
+    if unknown:
+        names = set().union(*[w[1] for w in unknown])
+        if got[0] != 'err':
+            errs['unknown-placeholder-is-an-error-naming-it'] = 'placeholders %s name no column but the feature expanded without an error' % sorted(names)
+        elif got[1] not in names:
+            errs['unknown-placeholder-is-an-error-naming-it'] = 'the error names %s, the unknown placeholders are %s' % (got[1], sorted(names))
+        else:
+            errs['unknown-placeholder-is-an-error-naming-it'] = None
+        return errs
+    if got[0] != 'ok':
+        errs['unknown-placeholder-is-an-error-naming-it'] = 'error %s although every placeholder names a column' % got[1]
+        return errs
+    g = got[1]
+    errs['one-scenario-per-row-in-table-and-row-order'] = None if len(g) == len(want) else '%d scenarios for %d data rows' % (len(g), len(want))
+    if len(g) != len(want):
+        return errs
+    e_sub = e_tags = None
+    for a, w in zip(g, want):
+        if a['name'] != w[1]['name'] or a['steps'] != w[1]['steps']:
+            e_sub = e_sub or 'expanded %r / %r, expected %r / %r' % (a['name'], a['steps'], w[1]['name'], w[1]['steps'])
+        if a['tags'] != w[1]['tags']:
+            e_tags = e_tags or 'tags %s, expected %s' % (a['tags'], w[1]['tags'])
+    errs['placeholders-replaced-by-the-rows-column-values'] = e_sub
+    errs['tags-are-outlines-then-tables'] = e_tags
+    lines = [a['line'] for a in g]
+    errs['expanded-positions-pairwise-distinct'] = None if len(set(lines)) == len(lines) else 'positions (lines) %s' % lines
+    return errs
+
+
+def confirm(chk, o, name):
+    sh, truth = o.shape, o.truth
+    rz = realize(sh, 'sc', truth)
+    if rz is None:
+        o.verdict = 'inconclusive'
+        o.detail += ' | the equalities of this path are not realisable by concrete names - not replayed'
+        return
+    text, render, nm = rz
+    got, path, out = native_expand(chk, text, re.sub(r'[^a-z0-9]+', '-', name))
+    if got is None:
+        o.verdict = 'inconclusive'
+        o.detail += ' | native replay failed: %s' % out[-300:]
+        return
+    errs = native_judge(sh, 'sc', truth, got, render, nm)
+    if errs.get(name):
+        chk.replay_files.append(path)
+        o.replay = path
+        o.detail += ' | reproduced natively through the real expand_examples on a generated .feature: %s' % errs[name][:300]
+    else:
+        o.verdict = 'inconclusive'
+        o.detail += ' | not reproduced natively (the real expand_examples output satisfies the checker on the generated .feature)'
+
+
+def confirm_feature(chk, o, name):
+    """native replay of a feature-level counterexample: plain scenarios and outlines at top level and in a rule"""
+    top, rule = o.feature
+    R = Realizer([x for x in top + rule], o.truths)
+    if not R.ok:
+        o.verdict = 'inconclusive'
+        o.detail += ' | the equalities of this path are not realisable by concrete names - not replayed'
+        return
+    L = ['Feature: f']
+    for tag, sh in top:
+        L += R.block(sh, tag, '  ')
+    L.append('  Rule: r')
+    for tag, sh in rule:
+        L += R.block(sh, tag, '    ')
+    text = '\n'.join(L).replace('Scenario Outline: ', 'Scenario Outline: ') + '\n'
+    got, path, out = native_expand(chk, text, re.sub(r'[^a-z0-9]+', '-', name))
+    if got is None:
+        o.verdict = 'inconclusive'
+        o.detail += ' | native replay failed: %s' % out[-300:]
+        return
+
+    def dec_for(tag):
+        def dec(a, b, tag=tag):
+            m = re.match(r'.*\.ex(\d+)\.col(\d+)$', b)
+            return o.truths[tag].get((int(a[2:]), int(m.group(1)), int(m.group(2))))
+        return dec
+    want = {'top': [], 'rule': []}
+    unknown = set()
+    for where, lst in (('top', top), ('rule', rule)):
+        for tag, sh in lst:
+            e = expected(None, sh, tag, decide=dec_for(tag))
+            if e is None:
+                want[where].append(R.render(tuple(('lit', '%s.name.%d' % (tag, i)) for i, p in enumerate(sh.name))))
+                continue
+            for x in e:
+                if x[0] == 'err':
+                    unknown |= set(R.name[p] for p in x[1])
+                else:
+                    want[where].append(R.render(x[1]['name']))
+    err = None
+    if unknown:
+        if got[0] != 'err':
+            err = 'placeholders %s name no column but the real expand_examples returned a feature' % sorted(unknown)
+        elif got[1] not in unknown:
+            err = 'the error names %s, the unknown placeholders are %s' % (got[1], sorted(unknown))
+    elif got[0] == 'err':
+        err = 'error %s although every placeholder names a column' % got[1]
+    else:
+        for where in ('top', 'rule'):
+            names = [a['name'] for a in got[1] if a['where'] == where]
+            if names != want[where] and err is None:
+                err = '%s: scenarios %s, expected %s' % (where, names, want[where])
+    if err:
+        chk.replay_files.append(path)
+        o.replay = path
+        o.detail += ' | reproduced natively through the real expand_examples on a generated .feature: %s' % err[:300]
+    else:
+        o.verdict = 'inconclusive'
+        o.detail += ' | not reproduced natively (the real expand_examples handles the generated .feature as specified)'
+
+
+def feature_level(chk, ob, shs):
+    """`<gherkin::Feature as Ext>::expand_examples` on a feature with plain scenarios around an outline at top level and an
+    outline + a plain scenario inside a rule: expansions appear in the outline's place, in order; any unknown placeholder
+    turns the whole feature into one error naming an unknown placeholder."""
+    prog = chk.prog
+    ee = [b for (st, m), lst in prog.by_method.items() if m == 'expand_examples' for tr, b in lst]
+    if len(ee) != 1:
+        raise Inconclusive('expand_examples: %d candidates' % len(ee))
+    by = {s.label: s for s in shs}
+    plain = Shape('plain', ['L'], [dict(value=['L'], doc=None, table=None)], [], 0)
+    top = [('p0', plain), ('t1', by['two-tables']), ('p1', plain)]
+    rule = [('r0', by['two-rows']), ('p2', plain)]
+    ex, M = chk.new_exec(loop_bound=40, max_paths=4000)
+    n = [0]
+
+    def run(ex_):
+        B = Builder(chk, ex_)
+        built = {}
+
+        def mk(lst):
+            out = []
+            for tag, sh in lst:
+                line = z3.BitVec('%s.line' % tag, 64)
+                sc, lines = B.scenario(sh, tag, line)
+                for c in layout(sh, tag, line, lines)[0]:
+                    ex_.add(c)
+                for j, tb in enumerate(sh.tables):
+                    if tb is not None:
+                        for c1, c2 in itertools.combinations(range(tb[0]), 2):
+                            for k in range(sh.nph):
+                                ex_.add(z3.Not(z3.And(*[z3.Bool('ph%d==%s.ex%d.col%d' % (k, tag, j, c)) for c in (c1, c2)])))
+                built[tag] = read_scenario(ex_, M, B, sc)
+                out.append(sc)
+            return out
+        tops, rules_sc = mk(top), mk(rule)
+        rl = B.st('Rule', keyword=B.sym('Rule'), name=B.sym('rule'), description=B.opt(None, 'String'), background=B.opt(None, 'Background'),
+                  scenarios=B.vec(rules_sc, 'Vec<Scenario>'), tags=B.vec([], 'Vec<String>'), span=B.span(), position=B.linecol(bv(1)))
+        feat = B.st('Feature', keyword=B.sym('Feature'), name=B.sym('f'), description=B.opt(None, 'String'), background=B.opt(None, 'Background'),
+                    scenarios=B.vec(tops, 'Vec<Scenario>'), rules=B.vec([rl], 'Vec<Rule>'), tags=B.vec([], 'Vec<String>'), span=B.span(),
+                    position=B.linecol(bv(0)), path=Adt('Option<PathBuf>', {}, 0))
+        out = ex_.materialize(ex_.call_body(ee[0], [feat]))
+        if z3.simplify(M.discr(ex_, out)).as_long() == 1:
+            EF = ex_.prog.tables.struct_fields('feature::ExpandExamplesError')
+            e = ex_.materialize(ex_.field_of(out, 1, 0, 'ExpandExamplesError'))
+            return {'err': sname(M.str_of(ex_, ex_.field_of(e, None, EF.index('name'), 'String'))), 'in': built}
+        f = ex_.materialize(ex_.field_of(out, 0, 0, 'gherkin::Feature'))
+        fs = [read_scenario(ex_, M, B, x) for x in M.seq_of(ex_, ex_.field_of(f, None, B.F['Feature'].index('scenarios'), 'Vec'))]
+        rls = M.seq_of(ex_, ex_.field_of(f, None, B.F['Feature'].index('rules'), 'Vec'))
+        rs = [read_scenario(ex_, M, B, x) for r_ in rls for x in M.seq_of(ex_, ex_.field_of(ex_.materialize(r_), None, B.F['Rule'].index('scenarios'), 'Vec'))]
+        return {'top': fs, 'rule': rs, 'in': built}
+
+    def on_end(ex_, rec):
+        kind, res, pc, dec = rec
+        n[0] += 1
+        o = ob('completes')
+        o.paths += 1
+        if kind != 'ok':
+            if o.verdict != 'violated':
+                o.verdict = 'violated' if kind == 'panic' else 'inconclusive'
+                o.detail = '%s: %s (feature level)' % (kind, res)
+            return
+
+        def want(lst):
+            out = []
+            for tag, sh in lst:
+                e = expected(ex_, sh, tag)
+                if e is None:
+                    out.append(('ok', {k: res['in'][tag][k] for k in ('name', 'steps', 'tags')}))
+                else:
+                    out += e
+            return out
+        wt, wr = want(top), want(rule)
+        truths = {tag: truth_table(ex_, sh, tag) for tag, sh in top + rule}
+        unknown = set().union(*([x[1] for x in wt + wr if x[0] == 'err'] or [set()]))
+
+        def flag(o, detail):
+            if o.verdict != 'violated' or (not Realizer(top + rule, getattr(o, 'truths', truths)).ok and Realizer(top + rule, truths).ok):
+                o.verdict, o.detail = 'violated', detail
+                o.truths, o.feature = truths, (top, rule)
+        o1 = ob('feature.unknown-placeholder-turns-the-feature-into-one-error')
+        o1.paths += 1
+        if unknown or 'err' in res:
+            if not unknown:
+                flag(o1, 'error %s although every placeholder names a column' % res.get('err'))
+            elif 'err' not in res:
+                flag(o1, 'placeholders %s name no column but the feature expanded' % sorted(unknown))
+            elif res['err'] not in unknown:
+                flag(o1, 'the error names %s, unknown are %s' % (res['err'], sorted(unknown)))
+            return
+        o2 = ob('feature.expansions-in-the-outlines-place-top-level-and-in-rules')
+        o2.paths += 1
+        for got, w, where in ((res['top'], wt, 'top level'), (res['rule'], wr, 'rule')):
+            g = [{k: x[k] for k in ('name', 'steps', 'tags')} for x in got]
+            ww = [{k: x[1][k] for k in ('name', 'steps', 'tags')} for x in w]
+            if g != ww:
+                flag(o2, '%s: scenarios %s, expected %s' % (where, [x['name'] for x in g], [x['name'] for x in ww]))
+    ex.explore(run, on_end)
+    return n[0]
+
+
 def body(chk):
     prog = chk.prog
     es = prog.bodies.get('expand_scenario') or prog.bodies.get('feature::expand_scenario')
@@ -284,6 +667,7 @@ def body(chk):
             obs[name].verdict = 'holds'
         return obs[name]
     npaths = 0
+    samples = []
     for sh in shs:
         ex, M = chk.new_exec(loop_bound=40, max_paths=4000)
 
@@ -318,11 +702,15 @@ def body(chk):
                     o.detail = '%s: %s (shape %s)' % (kind, res, sh.label)
                 return
             exp = expected(ex_, sh, 'sc')
+            truth = truth_table(ex_, sh, 'sc')
+            if len(samples) < 40 and exp is not None:
+                samples.append((sh, truth, res['got']))
             for name, err in compare(ex_, sh, 'sc', res['got'], exp, res['in']).items():
                 o = ob(name)
                 o.paths += 1
-                if err and o.verdict != 'violated':
+                if err and o.verdict != 'violated' and (realize(sh, 'sc', truth) is not None or not getattr(o, 'shape', None)):
                     o.verdict, o.detail = 'violated', '%s (shape %s)' % (err, sh.label)
+                    o.shape, o.truth = sh, truth
             # positions pairwise distinct: a solver query over the symbolic line numbers
             oks = [g[1] for g in res['got'] if g[0] == 'ok']
             if exp is not None and len(oks) > 1:
@@ -333,8 +721,47 @@ def body(chk):
                 if ex_.check(clash) and o.verdict != 'violated':
                     m = ex_.solver.model()
                     o.verdict = 'violated'
+                    o.shape, o.truth = sh, truth
                     o.detail = 'two expanded scenarios share a position (shape %s): lines %s' % (sh.label, [str(m.eval(a['line'], model_completion=True)) for a in oks])
         ex.explore(run, on_end)
+    npaths += feature_level(chk, ob, shs)
+    for name, o in list(obs.items()):
+        if o.verdict == 'violated' and getattr(o, 'shape', None) is not None:
+            confirm(chk, o, name)
+        elif o.verdict == 'violated' and getattr(o, 'feature', None) is not None:
+            confirm_feature(chk, o, name)
+    # translator validation: explored paths realised as .feature files must expand natively to what the symbolic run produced
+    agree = chk.add(Obligation('C16.model-agrees-with-native-expand_examples', 'sampled explored paths'))
+    agree.kind = 'witness'
+    agree.verdict = 'witness-ok'
+    n = 0
+    step = max(1, len(samples) // (3 if chk.tier == 'quick' else 12))
+    for sh, truth, got_model in samples[::step]:
+        rz = realize(sh, 'sc', truth)
+        if rz is None:
+            continue
+        text, render, nm = rz
+        got, path, out = native_expand(chk, text, 'agree-%d' % n)
+        n += 1
+        if got is None:
+            agree.verdict, agree.detail = 'witness-missing', 'native replay failed: %s' % out[-200:]
+            break
+        if got_model and all(g[0] == 'ok' for g in got_model):
+            mine = [{'name': render(g[1]['name']), 'steps': [{'value': render(s_['value']), 'doc': render(s_['doc']) if s_['doc'] is not None else None,
+                                                             'table': [[render(c) for c in row] for row in s_['table']] if s_['table'] is not None else None} for s_ in g[1]['steps']]} for g in got_model]
+            theirs = [{'name': a['name'], 'steps': a['steps']} for a in got[1]] if got[0] == 'ok' else got
+            if mine != theirs:
+                agree.verdict = 'witness-missing'
+                agree.detail = 'symbolic run and the native expand_examples disagree on shape %s: %s vs %s' % (sh.label, mine, theirs)
+                break
+        elif got_model and got[0] != 'err':
+            agree.verdict = 'witness-missing'
+            agree.detail = 'symbolic run reports an error, the native expand_examples does not (shape %s)' % sh.label
+            break
+    if agree.verdict == 'witness-ok':
+        agree.detail = '%d paths replayed natively: identical expansion' % n
+        if n == 0:
+            agree.verdict, agree.detail = 'witness-missing', 'no path could be realised'
     w = chk.add(Obligation('C16.witness', 'exploration'))
     w.kind = 'witness'
     w.verdict = 'witness-ok' if npaths >= 10 and len(obs) >= 6 else 'witness-missing'
